@@ -18,12 +18,12 @@ ALL_BINARY = ["appendTier", "union", "difference", "intersection", "mergeLabels"
 # property -> configuration
 PROPS = {
     "C06": dict(ops=["crop"], kinds=["I", "P"],
-                quick=dict(N=5, K=2), thorough=dict(N=7, K=3),
+                quick=dict(N=5, K=2), thorough=dict(N=6, K=3),
                 plans_quick=[("dy", "ascii"), ("dec", "uni")],
                 plans_thorough=[("dy", "ascii"), ("dec", "uni"), ("c7", "quote"), ("big", "ascii"), ("tiny", "uni")],
                 rand_quick=6000, rand_thorough=120000, extra_clauses=["times_off_grid"]),
     "C07": dict(ops=["eraseRegion"], kinds=["I", "P"],
-                quick=dict(N=5, K=2), thorough=dict(N=7, K=3),
+                quick=dict(N=5, K=2), thorough=dict(N=6, K=3),
                 plans_quick=[("dy", "ascii"), ("dec", "uni"), ("c7", "ascii")],
                 plans_thorough=[("dy", "ascii"), ("dec", "uni"), ("c7", "quote"), ("big", "ascii"), ("tiny", "uni")],
                 rand_quick=12000, rand_thorough=300000,
@@ -35,23 +35,24 @@ PROPS = {
                 rand_quick=12000, rand_thorough=300000,
                 extra_clauses=["times_off_grid", "C05_raw_float_wellformed"]),
     "C09": dict(ops=["editTimestamps", "editRoundTrip", "appendTier"], kinds=["I", "P"],
-                quick=dict(N=4, K=2), thorough=dict(N=5, K=3),
+                quick=dict(N=4, K=2), thorough=dict(N=5, K=2),
                 plans_quick=[("dy", "ascii"), ("dec", "uni")],
                 plans_thorough=[("dy", "ascii"), ("dec", "uni"), ("c7", "quote"), ("big", "ascii")],
                 rand_quick=8000, rand_thorough=150000, extra_clauses=["times_off_grid"]),
     "C10": dict(ops=["union", "difference", "intersection", "mergeLabels"], kinds=["I", "P"],
-                quick=dict(N=4, K=2), thorough=dict(N=6, K=3),
+                quick=dict(N=4, K=2), thorough=dict(N=5, K=3, OneSpan=True),
                 plans_quick=[("dy", "ascii"), ("dec", "uni")],
                 plans_thorough=[("dy", "ascii"), ("dec", "uni"), ("c7", "quote")],
                 rand_quick=8000, rand_thorough=150000, extra_clauses=["times_off_grid"]),
     "C11": dict(ops=["insertEntry", "deleteEntry"], kinds=["I", "P"],
-                quick=dict(N=4, K=2, Depth=1), thorough=dict(N=5, K=3, Depth=2),
+                quick=dict(N=4, K=2, Depth=1), thorough=dict(N=5, K=3, Depth=1),
+                deep=dict(N=4, K=2, Depth=2),            # histories of two calls, design level only (no emission)
                 plans_quick=[("dy", "ascii"), ("dec", "uni")],
                 plans_thorough=[("dy", "ascii"), ("dec", "uni"), ("c7", "quote")],
                 rand_quick=8000, rand_thorough=150000, extra_clauses=["times_off_grid"],
                 histories_quick=400, histories_thorough=8000),
     "C14": dict(ops=["dejitter", "morph"], kinds=["I", "P"],
-                quick=dict(N=4, K=2), thorough=dict(N=5, K=3),
+                quick=dict(N=4, K=2), thorough=dict(N=5, K=2),
                 plans_quick=[("dec", "uni")],
                 plans_thorough=[("dy", "ascii"), ("dec", "uni"), ("c7", "quote")],
                 rand_quick=8000, rand_thorough=150000, extra_clauses=["times_off_grid"]),
@@ -93,7 +94,7 @@ def run_mc(prop, cfg, tier, work, res, emit=True):
     jobs = []
     for sl in range(nsl):
         c = dict(N=consts["N"], K=consts["K"], Ops=set(cfg["ops"]), Kinds=set(cfg["kinds"]),
-                 Depth=consts["Depth"], Slice=sl, NSlices=nsl, Emit=emit)
+                 Depth=consts["Depth"], OneSpan=bool(consts.get("OneSpan", False)), Slice=sl, NSlices=nsl, Emit=emit)
         fn = os.path.join(work, "MC_Tier_%s_%d.cfg" % (prop, sl))
         common.write_cfg(fn, c, invariants=MC_INVARIANTS, properties=MC_PROPERTIES, constraints=["Bound"])
         jobs.append(fn)
@@ -394,32 +395,56 @@ def check(prop, tier):
         if not vectors:
             raise common.MachineryError("TLC emitted no vectors")
         res.exhaustive = True
-        # (B) spec -> code: replay every enumerated transition under the embeddings
+        if tier == "thorough" and "deep" in cfg:
+            d = cfg["deep"]
+            fn = os.path.join(work, "MC_Tier_deep.cfg")
+            common.write_cfg(fn, dict(N=d["N"], K=d["K"], Ops=set(cfg["ops"]), Kinds=set(cfg["kinds"]), Depth=d["Depth"], OneSpan=False,
+                                      Slice=0, NSlices=1, Emit=False), invariants=MC_INVARIANTS, properties=MC_PROPERTIES, constraints=["Bound"])
+            r = common.run_tlc("MC_Tier", fn, work, workers=common.NCPU, timeout=7200)
+            res.add_tlc(r)
+            if common.tlc_failed(r):
+                sys.stderr.write(r["out"][-3000:])
+                raise common.MachineryError("deep design-level run failed")
+            res.notes["deep_design_run"] = dict(constants=d, states=r["distinct"], transitions=r["generated"])
+        # (B) spec -> code: replay every enumerated transition under the embeddings; (C) code -> spec: TLC judges every
+        # recorded call.  Done plan by plan and in batches so that memory stays bounded in the thorough tier.
         plans = cfg["plans_" + tier]
-        events = T.replay(vectors, plans, 0)
-        ndrift = 0
         nv = len(vectors)
-        for i, ev in enumerate(events):
-            if i < nv and drift(vectors[i], ev):
-                ndrift += 1
+        ndrift = 0
+        rel = relevant_fn(prop, cfg)
+        BATCH = 250000
+
+        def process(events, sample=False):
+            verdicts, nval, cmd = common.validate_traces("Trace_Tier", events, work)
+            if cmd not in res.cmds:
+                res.cmds.append(cmd)
+            res.traces += nval
+            res.evaluations += len(events)
+            for ev in events:
+                if is_nontrivial(ev):
+                    res.distinct.add(nontrivial_key(ev))
+            if sample:
+                for ev in events[:2]:
+                    res.add_sample({k: ev[k] for k in ("op", "args", "pre", "arg", "st", "ret", "post", "emb")})
+            res.judge(events, verdicts, findings, rel)
+
+        for pi, plan in enumerate(plans):
+            for b0 in range(0, nv, BATCH):
+                chunk = vectors[b0:b0 + BATCH]
+                events = T.replay(chunk, [plan], 0)
+                if pi == 0:
+                    ndrift += sum(1 for v, ev in zip(chunk, events) if drift(v, ev))
+                process(events, sample=(pi == 0 and b0 == 0))
+                del events
         # (S3) random vectors on the millisecond grid (arbitrary 3-decimal timestamps)
         rv = rand_vectors(prop, cfg, cfg["rand_" + tier], common.SEED)
-        events += T.replay(rv, [("ms", "ascii"), ("ms", "uni")][: (2 if tier == "thorough" else 1)], len(events))
+        for plan in [("ms", "ascii"), ("ms", "uni")][: (2 if tier == "thorough" else 1)]:
+            for b0 in range(0, len(rv), BATCH):
+                process(T.replay(rv[b0:b0 + BATCH], [plan], 0), sample=(b0 == 0))
         # histories on live objects
         nh = cfg.get("histories_" + tier, 0)
         if nh:
-            events += run_histories(prop, cfg, nh, common.SEED, len(events))
-        # (C) code -> spec: TLC judges every event
-        verdicts, nval, cmd = common.validate_traces("Trace_Tier", events, work)
-        res.cmds.append(cmd)
-        res.traces = nval
-        res.evaluations = len(events)
-        for ev in events:
-            if is_nontrivial(ev):
-                res.distinct.add(nontrivial_key(ev))
-        for ev in events[:2] + events[nv * len(plans):nv * len(plans) + 1]:
-            res.add_sample({k: ev[k] for k in ("op", "args", "pre", "arg", "st", "ret", "post", "emb")})
-        res.judge(events, verdicts, findings, relevant_fn(prop, cfg))
+            process(run_histories(prop, cfg, nh, common.SEED, 0))
         # the Textgrid-level counterparts named by the property
         if prop in TG_PARTS:
             from . import checks_tg
